@@ -135,7 +135,7 @@ type Machine struct {
 	raceExempt   int                // >0: accesses are not recorded by the race analysis (model-internal registries)
 	baseMaxLoop  int                // the configured loop bound (verifMaxLoop lowers cfg.MaxLoop for one path)
 	digests      map[*Value][]*Term // bytes written to streaming xxhash digests
-	bmShapes map[string]bmShape // verifSizedBitmap: size and container kind per bitmap variable
+	bmShapes     map[string]bmShape // verifSizedBitmap: size and container kind per bitmap variable
 	fsFault      bool               // every open fails with EMFILE (verifFsFault)
 	advPath      string             // path the environment may create (verifFsAdversary)
 	advActed     bool
